@@ -8,7 +8,11 @@ instances of all classes (one call site reached by several receiver classes): in
 get-then-call, bound method stored and called later, dispatch through self, super calls
 from overriding methods, field reads/writes through self.x / @x / obj.x from methods,
 subclasses and closures, += on own and on a foreign instance, static methods, undeclared
-fields and methods.
+fields and methods. Lvalue family: a class that owns a field x (at every position, with and
+without an explicit super class) assigns (= and +=) through 11 lvalue shapes (self.inner.x,
+@inner.x, self.holder.inner.x, self.items[0].x, self.mk().x, o.x, o.inner.x, a local, ...)
+into objects of another class whose field x sits at a different position; every field of
+every object is printed afterwards.
 Oracle: reference class model (vlib/layref.py).
 """
 import itertools, time
@@ -91,6 +95,53 @@ def program(a_init, b_super, b_fields, c_init, b_m, b_n, c_m, at_syntax):
     return [A, B, C, D] + main
 
 
+LV_SHAPES = ["self.inner.x", "@inner.x", "self.holder.inner.x", "self.items[0].x", "self.mk().x", "o.x", "o.inner.x", "local.x", "self.inner.y", "self.x", "@x"]
+
+
+def lvalue_program(outer_fields, inner_fields, outer_has_super, shape, compound):
+    """class Outer owns fields (one of them named like a field of Inner, at another position) and writes through every lvalue shape into
+    objects of class Inner whose layout differs; afterwards every field of every object is printed"""
+    def mk_init(fields, tagp):
+        return [["expr", sset(f, S(tagp + f))] for f in fields]
+    inner = ["class", "Inner", None, [("method", "init", ["t"], [["expr", sset(f, ["bin", "+", V("t"), S(f)])] for f in inner_fields]),
+                                      ("method", "show", [], [["return", ["list", [sget(f) for f in inner_fields]]]])]]
+    holder = ["class", "Holder", None, [("method", "init", [], [["expr", sset("pad", S("pad"))], ["expr", sset("inner", call("Inner", S("h")))]])]]
+    base = ["class", "OBase", None, [("method", "init", [], [["expr", sset("basef", S("bf"))]]), ("method", "bm", [], [["return", S("bm")]])]]
+    val = S("W")
+    def tgt(obj, name):
+        if compound:
+            return ["expr", ["opset", "+", obj, name, val]]
+        return ["expr", ["set", obj, name, val]]
+    inner_obj = {"self.inner.x": sget("inner"), "@inner.x": ["at", "inner"], "self.holder.inner.x": ["get", sget("holder"), "inner"], "self.items[0].x": ["index", sget("items"), N(0)],
+                 "self.mk().x": inv(SELF, "mk"), "o.x": V("o"), "o.inner.x": ["get", V("o"), "inner"], "local.x": V("local"), "self.inner.y": sget("inner")}
+    name = "y" if shape == "self.inner.y" else "x"
+    if shape in ("self.x", "@x"):
+        stmt = tgt(SELF, "x") if shape == "self.x" else (["expr", ["atset", "x", ["bin", "+", ["at", "x"], val] if compound else val]])
+        pre = []
+    else:
+        pre = [["let", "local", sget("inner")]] if shape == "local.x" else []
+        stmt = tgt(inner_obj[shape], name)
+    read_back = [["print", [S("self"), ["list", [sget(f) for f in outer_fields if f not in ("inner", "holder", "items", "made")]]]], ["print", [S("inner"), inv(sget("inner"), "show")]],
+                 ["print", [S("holder"), inv(["get", sget("holder"), "inner"], "show")]], ["print", [S("items"), inv(["index", sget("items"), N(0)], "show")]],
+                 ["print", [S("made"), inv(sget("made"), "show")]], ["print", [S("o"), inv(V("o"), "show") if shape != "o.inner.x" else inv(["get", V("o"), "inner"], "show")]]]
+    init_body = ([["expr", ["super", "init", []]]] if outer_has_super else [])
+    for f in outer_fields:
+        if f == "inner":
+            init_body.append(["expr", sset("inner", call("Inner", S("i")))])
+        elif f == "holder":
+            init_body.append(["expr", sset("holder", call("Holder"))])
+        elif f == "items":
+            init_body.append(["expr", sset("items", ["list", [call("Inner", S("l"))]])])
+        elif f == "made":
+            init_body.append(["expr", sset("made", call("Inner", S("m")))])
+        else:
+            init_body.append(["expr", sset(f, S("O" + f))])
+    outer = ["class", "Outer", "OBase" if outer_has_super else None, [("method", "init", [], init_body), ("method", "mk", [], [["return", sget("made")]]),
+                                                                        ("method", "run", ["o"], pre + [["try", [stmt], "e", None, [["print", [S("err"), inv(inv(V("e"), "cls"), "name")]]]]] + read_back + [["return", ["nil"]]])]]
+    arg = call("Inner", S("a")) if shape != "o.inner.x" else call("Holder")
+    return [inner, holder, base, outer, ["expr", inv(call("Outer"), "run", arg)]]
+
+
 class C03(Check):
     id = "C03"
     level = "exploration"
@@ -100,11 +151,25 @@ class C03(Check):
     def gen(self, tier):
         for f in itertools.product(range(len(A_INIT)), B_SUPER, range(len(B_FIELDS)), (False, True), (False, True), (False, True), (False, True), (False, True)):
             yield f
+        base = ["inner", "holder", "items", "made"]
+        for xpos in (0, 1, 2, 5):
+            for inner_fields in (["x"], ["x", "y"], ["y", "x"], ["q", "y", "x"]):
+                of = list(base)
+                of.insert(min(xpos, len(of)), "x")
+                of.insert(0 if xpos else len(of), "y")
+                for sup in (False, True):
+                    for shape in LV_SHAPES:
+                        for compound in (False, True):
+                            yield ("lvalue", tuple(of), tuple(inner_fields), sup, shape, compound)
 
     def ast(self, spec):
+        if spec[0] == "lvalue":
+            return lvalue_program(list(spec[1]), list(spec[2]), spec[3], spec[4], spec[5])
         return program(A_INIT[spec[0]], spec[1], B_FIELDS[spec[2]], *spec[3:])
 
     def describe(self, spec):
+        if spec[0] == "lvalue":
+            return "lvalue shape=%s compound=%s outer fields=%s (super=%s) inner fields=%s" % (spec[4], spec[5], list(spec[1]), spec[3], list(spec[2]))
         return "A.init=%s B.super=%s B.fields=%s C.init=%s B.m=%s B.n=%s C.m=%s @syntax=%s" % (A_INIT[spec[0]], spec[1], B_FIELDS[spec[2]], *spec[3:])
 
     def build(self, spec):
